@@ -166,8 +166,9 @@ def run(ck: Check):
     ck.notes.append("domlt_correct (Lengauer-Tarjan correctness of the model for all well-formed graphs: total, returns the dominator tree) "
                     "is proved in Lean; the per-case run of the verified checker on the model's answer is kept as a redundant cross-check "
                     "(domLT_always_certified proves it can never reject)")
-    ck.assumptions.append("Python dict/set are modelled as functions / insertion-ordered duplicate-free lists; iteration order of "
-                          "pred[w] and bucket[pw].pop() (hash order in Python) is insertion order in the model - the returned dict must not depend on it")
+    ck.assumptions.append("Python dict/set are modelled as functions / insertion-ordered duplicate-free lists; the driver enumerates "
+                          "pred[w] and bucket[pw] in insertion order (CPython: hash order) - domlt_order_independent proves the returned dict "
+                          "is the same for every enumeration order, so this is not an assumption about the algorithm, only about the driver")
     ck.notes.append("unrooted graphs are compared model-vs-code and certified, but not judged by the oracle: the property speaks of rooted graphs")
 
 
